@@ -753,6 +753,10 @@ func init() {
 }
 
 func c05cases(e vt.Env, yield func(vt.Case) bool) {
+	// D: a rendezvous transport with a single-threaded peer (c05_direct.go)
+	if !c05directCases("C05", e, yield) {
+		return
+	}
 	alpha := c05alphabet()
 	exh := e.Pick(3, 4)
 	// E1: exhaustive histories, both channel flavours by hash
